@@ -75,7 +75,8 @@ def worker_init():
     _EXP[("Ev", 0)] = _evaluate(AHB[0])
     # calibration (cold state): does the AHB parser keep the whitespace between indicator and condition text in its token?
     cal = "\t \t \t"
-    t = I.tree_to_tuple(I.parse_ahb_expression_to_single_requirement_indicator_expressions("Muss" + cal + AHB[0][4:]))
+    # (an expression that is unrelated to the strings under test and has never been parsed in any other spelling)
+    t = I.tree_to_tuple(I.parse_ahb_expression_to_single_requirement_indicator_expressions("Kann" + cal + "[77] O [78]"))
     _EXP["keeps_ws"] = cal in repr(t).encode().decode("unicode_escape")
 
 
